@@ -1,5 +1,6 @@
 SPECIFICATION TraceSpec
 CONSTANTS
+  FifoLock = FALSE
   Types = {"E00","E01","E02","E03","E04","E05","E06","E07","E08","E09","E10","E11","E12","E13","E14","E15","E16","E17","E18","E19","E20","E21","E22","E23","E24","E25","E26","E27","E28","E29","E30","E31","E32","E33","E34","E35","E36","E37","E38","E39"}
   Procs = {1, 2, 3, 4, 5, 6, 7, 8}
 CONSTRAINT HighWater
